@@ -27,6 +27,8 @@ pub struct BlockInfo {
     pub entries: Vec<EntryInfo>,
     /// depth in the tree: 0 = root index block, `levels` = deepest index level, `levels+1` = data
     pub depth: Option<usize>,
+    /// index (into `Decoded::blocks`) of the index block referencing this block
+    pub parent: Option<usize>,
 }
 
 #[derive(Clone, Debug)]
@@ -46,6 +48,8 @@ pub struct Decoded {
     pub blocks: Vec<BlockInfo>,
     /// entries of the data blocks in index order
     pub entries: Entries,
+    /// for every entry, the index (into `blocks`) of the data block holding it
+    pub entry_block: Vec<usize>,
 }
 
 #[derive(Clone, Copy, Debug)]
@@ -291,6 +295,7 @@ pub fn decode(b: &[u8], opts: &Opts) -> Result<Decoded, String> {
             offsets,
             entries,
             depth: None,
+            parent: None,
         });
         p = end;
     }
@@ -316,6 +321,7 @@ pub fn decode(b: &[u8], opts: &Opts) -> Result<Decoded, String> {
         depth_data: usize,
         out: &mut Entries,
         order: &mut Vec<usize>,
+        eb: &mut Vec<usize>,
     ) -> Result<Option<Vec<u8>>, String> {
         if blocks[idx].depth.is_some() {
             return Err(format!("block@{} is referenced twice", blocks[idx].offset));
@@ -328,6 +334,7 @@ pub fn decode(b: &[u8], opts: &Opts) -> Result<Decoded, String> {
             }
             for e in &blocks[idx].entries {
                 out.push((e.key.clone(), e.val.clone()));
+                eb.push(idx);
             }
             return Ok(blocks[idx].entries.last().map(|e| e.key.clone()));
         }
@@ -345,7 +352,10 @@ pub fn decode(b: &[u8], opts: &Opts) -> Result<Decoded, String> {
             let child = blocks
                 .binary_search_by_key(&off, |bl| bl.offset)
                 .map_err(|_| format!("index entry points to {off}, not a block start"))?;
-            let child_last = walk(blocks, child, depth + 1, depth_data, out, order)?;
+            if blocks[child].parent.is_none() {
+                blocks[child].parent = Some(idx);
+            }
+            let child_last = walk(blocks, child, depth + 1, depth_data, out, order, eb)?;
             if child_last.as_deref() != Some(k.as_slice()) {
                 return Err(format!(
                     "index key {} differs from the last key {:?} of child block@{off}",
@@ -357,7 +367,8 @@ pub fn decode(b: &[u8], opts: &Opts) -> Result<Decoded, String> {
         }
         Ok(last)
     }
-    walk(&mut blocks, root, 0, depth_data, &mut entries, &mut visit_order)?;
+    let mut entry_block = Vec::new();
+    walk(&mut blocks, root, 0, depth_data, &mut entries, &mut visit_order, &mut entry_block)?;
     // every block reachable exactly once
     if let Some(bl) = blocks.iter().find(|bl| bl.depth.is_none()) {
         return Err(format!("block@{} is not reachable from the root", bl.offset));
@@ -384,7 +395,7 @@ pub fn decode(b: &[u8], opts: &Opts) -> Result<Decoded, String> {
     if trailer.count != entries.len() as u64 {
         return Err(format!("trailer count {} but {} entries found", trailer.count, entries.len()));
     }
-    Ok(Decoded { trailer, blocks, entries })
+    Ok(Decoded { trailer, blocks, entries, entry_block })
 }
 
 impl Decoded {
